@@ -4,6 +4,7 @@ use serde_json::Value;
 
 pub mod c01;
 pub mod c04;
+pub mod c05;
 pub mod c07;
 pub mod c08;
 pub mod c09;
@@ -19,6 +20,7 @@ pub fn run(ctx: &Ctx, st: &mut Stats) -> bool {
     match ctx.prop.as_str() {
         "C01" => c01::run(ctx, st),
         "C04" => c04::run(ctx, st),
+        "C05" => c05::run(ctx, st),
         "C07" => c07::run(ctx, st),
         "C08" => c08::run(ctx, st),
         "C09" => c09::run(ctx, st),
@@ -39,6 +41,7 @@ pub fn replay(prop: &str, case: &Value, st: &mut Stats) -> bool {
     match prop {
         "C01" => c01::replay(case, st),
         "C04" => c04::replay(case, st),
+        "C05" => c05::replay(case, st),
         "C07" => c07::replay(case, st),
         "C08" => c08::replay(case, st),
         "C09" => c09::replay(case, st),
